@@ -398,6 +398,51 @@ def clash_case(k, acc: Acc):
                                     what=f"{new[ln].strip()!r}: expected {sorted(want)}, got {sorted(labels)}"))
 
 
+SUBORDER = {
+    "zqsub_a_impl.f90": "submodule (zqsub_par) zqsub_impl\n  implicit none\ncontains\n  module procedure zqs_proc\n    integer :: zql_local\n    zql_local = zq\n  end procedure zqs_proc\n"
+                        "  module procedure zqf_res\n    zqr_out = zq\n  end procedure zqf_res\nend submodule zqsub_impl\n",
+    "zqsub_b_mod.f90": "module zqsub_par\n  implicit none\n  integer :: zqv_modvar\n  interface\n    module subroutine zqs_proc(zqa_first, zqa_second)\n      integer :: zqa_first\n      real :: zqa_second\n"
+                       "    end subroutine zqs_proc\n    module function zqf_res(zqa_in) result(zqr_out)\n      real :: zqa_in, zqr_out\n    end function zqf_res\n  end interface\nend module zqsub_par\n",
+}
+
+
+def suborder_case(order, acc: Acc):
+    """A separate module procedure in the short form (`module procedure name`) takes its dummy arguments and result
+    from the interface body in the parent module - in whatever order the two files are indexed."""
+    sc = worker_scratch("c12")
+    lines = SUBORDER["zqsub_a_impl.f90"].split("\n")
+    for ln, want_all in ((5, {"zqa_first", "zqa_second", "zql_local", "zqv_modvar", "zqf_res"}), (8, {"zqa_in", "zqr_out", "zqv_modvar", "zqf_res"})):
+        for typed in ("zq", "zqa", "zqa_", "zqr", "ZQA_F"):
+            new = list(lines)
+            new[ln] = new[ln][:new[ln].index("= ") + 2] + typed
+            # the typed text is in the file from the start: the question is asked in the state start-up left behind
+            # (a didChange would parse and link the submodule again, after its parent)
+            sc.wipe()
+            root = os.path.realpath(os.path.join(sc.path, "w"))
+            os.makedirs(root)
+            for n, t in SUBORDER.items():
+                with open(os.path.join(root, n), "w") as f:
+                    f.write("\n".join(new) if n == "zqsub_a_impl.f90" else t)
+            s = Server([])
+            real = s.srv._get_source_files
+            rank = {n: i for i, n in enumerate(order)}
+            s.srv._get_source_files = lambda real=real: sorted(real(), key=lambda p: rank[os.path.basename(p)])
+            s.initialize(root)
+            path = os.path.join(root, "zqsub_a_impl.f90")
+            r = s.result("textDocument/completion", Server.tdpp(path, ln, len(new[ln])))
+            labels = {c["label"].lower() for c in r} if isinstance(r, list) else set()
+            mine = {l for l in labels if l.startswith("zq")}
+            req = {m for m in want_all if m.startswith(typed.lower())}
+            opt = {m for m in ("zqs_proc", "zqsub_par", "zqsub_impl") if m.startswith(typed.lower())}
+            acc.case(nontrivial_key=("suborder", tuple(order), ln, typed) if req else None, outcome=("suborder", len(req)))
+            acc.count("completions")
+            if (req - mine) or (mine - req - opt):
+                acc.violation(Violation("completion", {"family": "completion", "context": "module_procedure_body", "access": "submodule", "scope": "first:" + order[0],
+                                                       "upper": typed != typed.lower(), "obs": "missing" if req - mine else "extra", "class": "dummy"},
+                                        {"order": list(order), "typed": typed, "context": "module_procedure_body", "line": new[ln]}, sorted(req), sorted(mine),
+                                        what=f"file order {list(order)}: {new[ln].strip()!r}: expected {sorted(req)}, got {sorted(mine)}"))
+
+
 def main(ctx):
     ctx.rule = ("9 access variants x 3 using scopes; per workspace up to 9 contexts (body, body with text after the cursor, CALL, "
                 "USE, USE ONLY:, TYPE(, CLASS(, obj%, obj%comp%) x every prefix from the stem 'zq' up to the full name of every "
@@ -415,6 +460,8 @@ def main(ctx):
     acc.merge(cacc)
     kacc = core.pmap(clash_case, list(range(len(CLASH_PROBES))), chunk=1, budget_s=120, label="C12/clash")
     acc.merge(kacc)
+    oacc = core.pmap(suborder_case, [tuple(sorted(SUBORDER)), tuple(sorted(SUBORDER, reverse=True))], chunk=1, budget_s=120, label="C12/suborder")
+    acc.merge(oacc)
     ctx.add_family("completion", acc)
 
 
